@@ -702,6 +702,8 @@ pub fn deviations() -> Vec<(usize, String, Box<dyn Fn(&mut RuleSpec) + Send + Sy
         "dt two ranges",
         Box::new(move |r| r.datetime = Some(vec![(t0(), t1()), (Some("2024-05-01T00:00:00Z".into()), Some("2024-06-01T00:00:00Z".into()))])),
     );
+    // the same window [T0, T1) with its bounds written in other UTC offsets
+    add(5, "dt[T0,T1) written +02:00 / -05:00", Box::new(|r| r.datetime = Some(vec![(Some("2024-03-04T12:00:00+02:00".into()), Some("2024-03-06T07:00:00-05:00".into()))])));
     add(5, "dt open start", Box::new(move |r| r.datetime = Some(vec![(None, t1())])));
     add(5, "dt open end", Box::new(move |r| r.datetime = Some(vec![(t0(), None)])));
     add(5, "dt unparsable end", Box::new(move |r| r.datetime = Some(vec![(t0(), Some("not a date".into()))])));
